@@ -42,6 +42,8 @@ NEAR = {"dateTime": ["2021-02-20T00:00:00.Z", "2020-01-01T00:00:00z", "2020-1-1T
                      "2020-01-01T00:00:00+01", "2020-01-01T00:00:00 Z",
                      # (second 60 is left alone: a leap second to ISO 8601 and XSD 1.0, outside the value space to XSD 1.1)
                      "2020-01-01T00:00:61Z", "2020-01-01T00:00:99Z",
+                     # the end-of-day hour with anything but zeros behind it
+                     "2020-01-01T24:30:00Z", "2020-01-01T24:00:01Z", "2020-01-01T24:15:00.500Z", "2020-01-01T24:00:00.001Z", "2020-01-01T24:59:59",
                      # padded with characters that are white space to str.strip() and not to XML (S ::= #x20 | #x9 | #xD | #xA)
                      "2020-01-01T00:00:00Z\u00a0", "\u20282020-01-01T00:00:00Z", "\u30002020-01-01T00:00:00Z\u3000", "2020-01-01T00:00:00Z\x0c"],
         "boolean": ["TRUE", "True", "False", "yes", "", "01", "t", "true\u00a0", "\u30001", "false\x0b", "\u20280"],
